@@ -26,15 +26,20 @@ type RollbackCfg struct {
 
 // RollbackWL is the workload: one writer, every batch tagged with its sequence number.
 type RollbackWL struct {
-	Batches  []model.Batch `json:"batches"`
-	SleepMS  []int         `json:"sleep_ms"` // simulated pause after each batch
-	Searches int           `json:"searches,omitempty"`
+	Batches  []model.Batch   `json:"batches"`
+	SleepMS  []int           `json:"sleep_ms"` // simulated pause after each batch
+	Searches int             `json:"searches,omitempty"`
+	Others   [][]model.Batch `json:"others,omitempty"` // further concurrent writers (own id ranges, own markers): with
+	// two safe-batch writers the persister sees several unpersisted segments and merges them in memory
 }
 
 func genRollback(c *core.Ctx) (RollbackCfg, RollbackWL) {
 	g := c.Gen
 	cfg := RollbackCfg{Index: model.GenIndexCfg(g), NDocs: 3 + g.Intn(4), AnalysisQ: 1 + g.Intn(2)}
-	cfg.Index.Unsafe = false // safe mode: acknowledged = persisted, so the newest rollback point is predictable
+	// mostly safe mode (acknowledged = persisted, so the newest rollback point is predictable); with unsafe batches a
+	// writer runs ahead of the persister, batches land while an in-memory merge runs, and the newest point only has to
+	// contain what the persisted callbacks acknowledged
+	cfg.Index.Unsafe = g.Intn(10) < 4
 	cfg.Index.KeepSnapshots = 1 + g.Intn(4)
 	cfg.Index.SamplingMS = []int{0, 0, 10, 1000, 60000}[g.Intn(5)]
 	cfg.Index.RetentionFactor = []float64{0, 0, 0.5, 1}[g.Intn(4)]
@@ -62,6 +67,10 @@ func genRollback(c *core.Ctx) (RollbackCfg, RollbackWL) {
 	}
 	if g.Intn(3) == 0 {
 		cfg.ReopenAt = 1 + g.Intn(n)
+	} else if g.Intn(2) == 0 {
+		for w := 1; w <= 1+g.Intn(2); w++ {
+			wl.Others = append(wl.Others, genWriterBatches(g, w, cfg.NDocs, 4+g.Intn(n)))
+		}
 	}
 	return cfg, wl
 }
@@ -82,12 +91,24 @@ func rollbackScenario(c *core.Ctx) {
 	store := filepath.Join(path, "store")
 	icfg := cfg.Index
 	icfg.AsyncCB = "bsim"
-	wp := model.NewWriterPrefixes(0, cfg.NDocs, wl.Batches)
-	var ids []string
-	for d := 0; d < cfg.NDocs; d++ {
-		ids = append(ids, model.WriterID(0, d))
+	if cfg.ReopenAt > 0 {
+		wl.Others = nil // the writer that closes and reopens the index is alone
+		cfg.Index.Unsafe = false
+		icfg.Unsafe = false
 	}
-	keys := []string{model.MarkerKey(0)}
+	all := append([][]model.Batch{wl.Batches}, wl.Others...)
+	var wps []*model.WriterPrefixes
+	var ids, keys []string
+	for w, bs := range all {
+		wps = append(wps, model.NewWriterPrefixes(w, cfg.NDocs, bs))
+		for d := 0; d < cfg.NDocs; d++ {
+			ids = append(ids, model.WriterID(w, d))
+		}
+		keys = append(keys, model.MarkerKey(w))
+	}
+	wp := wps[0]
+	_ = wp
+	ackedOf := make([]int, len(all))
 	acked := 0
 	checks := 0
 	keep := cfg.Index.KeepSnapshots
@@ -128,14 +149,18 @@ func rollbackScenario(c *core.Ctx) {
 		prevEpochs = cur
 	})
 	var idx bleve.Index
-	s.Spawn("writer", func() {
+	s.Spawn("setup", func() {
 		var err error
 		idx, err = icfg.Create(path, model.Mapping(false))
 		if err != nil {
 			c.Res.Harness = "create: " + err.Error()
 			idx = nil
-			return
 		}
+	})
+	if !env.RunClients("setup") || idx == nil {
+		return
+	}
+	s.Spawn("writer", func() {
 		for k, mb := range wl.Batches {
 			seq := k + 1
 			mb.Ints = append(append([]model.IntOp(nil), mb.Ints...), model.IntOp{Key: model.MarkerKey(0), Val: strconv.Itoa(seq)})
@@ -144,11 +169,21 @@ func rollbackScenario(c *core.Ctx) {
 				c.Res.Harness = "build batch: " + err.Error()
 				return
 			}
+			if cfg.Index.Unsafe {
+				bb.SetPersistedCallback(func(err error) {
+					if err == nil && seq > ackedOf[0] {
+						ackedOf[0] = seq
+					}
+				})
+			}
 			if err := idx.Batch(bb); err != nil {
 				c.Violate("batch-error", nil, s.Steps, "batch %d: %v", seq, err)
 				return
 			}
 			acked = seq
+			if !cfg.Index.Unsafe {
+				ackedOf[0] = seq
+			}
 			if k < len(wl.SleepMS) && wl.SleepMS[k] > 0 {
 				time.Sleep(time.Duration(wl.SleepMS[k]) * time.Millisecond)
 				s.Yield("writer-woke")
@@ -162,6 +197,7 @@ func rollbackScenario(c *core.Ctx) {
 					idx = nil
 					return
 				}
+				var err error
 				if idx, err = icfg.Open(path); err != nil {
 					c.Violate("reopen-error", nil, s.Steps, "%v", err)
 					idx = nil
@@ -171,6 +207,34 @@ func rollbackScenario(c *core.Ctx) {
 			}
 		}
 	})
+	for w := 1; w < len(all); w++ {
+		w := w
+		s.Spawn(fmt.Sprintf("writer%d", w), func() {
+			for k, mb := range all[w] {
+				mb.Ints = append(append([]model.IntOp(nil), mb.Ints...), model.IntOp{Key: model.MarkerKey(w), Val: strconv.Itoa(k + 1)})
+				bb, err := BuildBatch(idx, mb, false)
+				if err != nil {
+					c.Res.Harness = "build batch: " + err.Error()
+					return
+				}
+				if cfg.Index.Unsafe {
+					kk := k + 1
+					bb.SetPersistedCallback(func(err error) {
+						if err == nil && kk > ackedOf[w] {
+							ackedOf[w] = kk
+						}
+					})
+				}
+				if err := idx.Batch(bb); err != nil {
+					c.Violate("batch-error", nil, s.Steps, "writer %d batch %d: %v", w, k+1, err)
+					return
+				}
+				if !cfg.Index.Unsafe {
+					ackedOf[w] = k + 1
+				}
+			}
+		})
+	}
 	if wl.Searches > 0 {
 		s.Spawn("searcher", func() {
 			for i := 0; i < wl.Searches*4; i++ {
@@ -201,29 +265,42 @@ func rollbackScenario(c *core.Ctx) {
 		c.Violate("rollback-points-error", nil, s.Steps, "RollbackPoints: %v", err)
 		return
 	}
-	var seqs []int
+	// every point names, per writer, the number of batches it contains
+	parse := func(v string, n int) (int, bool) {
+		if v == "" { // no marker: the state before the writer's first batch
+			return 0, true
+		}
+		k, err := strconv.Atoi(v)
+		return k, err == nil && k >= 0 && k <= n
+	}
+	var seqs []int      // writer 0, for the summary
+	var pointKs [][]int // per point, per writer
 	for _, p := range pts {
-		v := string(p.GetInternal([]byte(model.MarkerKey(0))))
-		k, err := 0, error(nil)
-		if v != "" { // no marker: the state before the first batch
-			k, err = strconv.Atoi(v)
+		ks := make([]int, len(all))
+		for w := range all {
+			v := string(p.GetInternal([]byte(model.MarkerKey(w))))
+			k, ok := parse(v, len(all[w]))
+			if !ok {
+				c.Violate("rollback-point-unknown-state", nil, s.Steps, "rollback point carries marker %q for writer %d, which is not a batch number", v, w)
+				return
+			}
+			ks[w] = k
 		}
-		if err != nil || k < 0 || k > len(wl.Batches) {
-			c.Violate("rollback-point-unknown-state", nil, s.Steps, "rollback point carries marker %q, which is not a batch number", v)
-			return
-		}
-		seqs = append(seqs, k)
+		pointKs = append(pointKs, ks)
+		seqs = append(seqs, ks[0])
 	}
 	if len(seqs) == 0 {
 		c.Violate("no-rollback-point", nil, s.Steps, "no rollback point is offered after %d acknowledged batches", acked)
 		return
 	}
-	if seqs[0] != acked {
-		c.Violate("newest-state-not-offered", nil, s.Steps, "the first rollback point is batch %d but the last acknowledged (persisted) batch is %d; points %v", seqs[0], acked, seqs)
-	}
-	for i := 1; i < len(seqs); i++ {
-		if seqs[i] > seqs[i-1] {
-			c.Violate("rollback-points-out-of-order", nil, s.Steps, "rollback points are not ordered newest first: %v", seqs)
+	for w := range all {
+		if (!cfg.Index.Unsafe && pointKs[0][w] != ackedOf[w]) || (cfg.Index.Unsafe && pointKs[0][w] < ackedOf[w]) {
+			c.Violate("newest-state-not-offered", nil, s.Steps, "the first rollback point holds %d batches of writer %d but %d were acknowledged (persisted); points %v", pointKs[0][w], w, ackedOf[w], pointKs)
+		}
+		for i := 1; i < len(pointKs); i++ {
+			if pointKs[i][w] > pointKs[i-1][w] {
+				c.Violate("rollback-points-out-of-order", nil, s.Steps, "rollback points are not ordered newest first: %v", pointKs)
+			}
 		}
 	}
 	if len(pts) > keep {
@@ -251,7 +328,16 @@ func rollbackScenario(c *core.Ctx) {
 			c.Violate("open-after-rollback-failed", nil, s.Steps, "after Rollback to batch %d: %v", seqs[pi], err)
 			continue
 		}
-		m := wp.States[seqs[pi]].Clone()
+		m := model.NewMapModel()
+		for w := range all {
+			st := wps[w].States[pointKs[pi][w]]
+			for id, v := range st.Docs {
+				m.Docs[id] = v
+			}
+			for k2, v := range st.Ints {
+				m.Ints[k2] = v
+			}
+		}
 		st, err := ReadState(ix, ids, keys)
 		if err != nil {
 			c.Violate("open-after-rollback-failed", nil, s.Steps, "after Rollback to batch %d: %v", seqs[pi], err)
@@ -259,7 +345,7 @@ func rollbackScenario(c *core.Ctx) {
 			continue
 		}
 		if bad := CheckState(st, m, ids, keys, false); len(bad) > 0 {
-			c.Violate("state-after-rollback-wrong", nil, s.Steps, "after Rollback to point %d (batch %d of %d, points %v): %s", pi, seqs[pi], acked, seqs, strings.Join(bad, "; "))
+			c.Violate("state-after-rollback-wrong", nil, s.Steps, "after Rollback to point %d (batches per writer %v, all points %v): %s", pi, pointKs[pi], pointKs, strings.Join(bad, "; "))
 			_ = ix.Close()
 			continue
 		}
